@@ -162,6 +162,12 @@ pub fn generate(seed: u64, k_seeds: usize) -> Sc {
             }
         }
     }
+    // Security names are free text: some contain characters that are awkward in a file name
+    // (--csv-output-dir names one file per security after it).
+    if r.chance(1, 6) {
+        let i = secs.len() - 1;
+        secs[i] = *r.pick(&["RY:TO", "BRK/B", "A*B", "WHY?", "A|B", "T<X>"]);
+    }
     let n_aff = r.weighted(&[2, 3, 3, 2]) + 1;
     let mut affs: Vec<&str> = AFFS[1..].to_vec();
     r.shuffle(&mut affs);
@@ -888,6 +894,9 @@ fn probes(sc: &Sc, mode: Mode, out: &RunOutput, st: &mut Stats) -> bool {
             if text.contains("[!] ") {
                 mark(st, "probe.security_error_rendered");
             }
+            if sc.files.iter().any(|f| f.rows.iter().any(|r| r[C_SEC].chars().any(|c| "/\\:*?\"<>|".contains(c)))) {
+                mark(st, "probe.security_name_with_file_name_special_characters");
+            }
             // global split over >= 2 affiliates
             let mut global_split_multi = false;
             for f in &sc.files {
@@ -1222,6 +1231,9 @@ impl Engine for C09 {
             "probe.securities_differing_only_in_case",
             "probe.output_dir_used_by_an_earlier_longer_run",
             "probe.header_repeats_a_recognised_column",
+            "probe.security_name_with_file_name_special_characters",
+            "probe.e2e_inputs_run_by_the_real_binary",
+            "probe.e2e_real_process_output_equals_simulated_process_output",
             "probe.fx_first_run_downloaded",
             "probe.fx_second_run_served_from_cache",
         ]
